@@ -201,8 +201,19 @@ func runCheck(id string, o opts) (code int) {
 	if o.noEmit {
 		// self-test mode: print findings only, never touch evidence
 		bad := 0
+		known, _ := loadKnown(filepath.Join(vd, "known_findings.json"))
 		for _, ob := range r.Obs {
 			for _, f := range ob.Findings {
+				isKnown := false
+				for _, k := range known {
+					if k.Status == "known" && k.Property == id && k.Key == f.Key && f.Status == Violated {
+						isKnown = true
+					}
+				}
+				if isKnown {
+					fmt.Printf("KNOWN %s %s %s\n", ob.ID, f.Key, f.Where)
+					continue
+				}
 				fmt.Printf("FINDING %s %s %s %s :: %s\n", ob.ID, f.Status, f.Key, f.Where, f.Message)
 				bad++
 			}
